@@ -136,8 +136,9 @@ class Check:
             "coverage": cov, "assumptions": self.assumptions, "wall_s": round(wall, 2),
             "violations": len(self.violations),
         }
-        (VERIF / "evidence").mkdir(exist_ok=True)
-        (VERIF / "evidence" / f"{self.pid}.json").write_text(json.dumps(ev, indent=1, default=str) + "\n")
+        if not os.environ.get("VERIF_NO_EVIDENCE"):     # (mutation experiments against a scratch copy leave the evidence of /repo alone)
+            (VERIF / "evidence").mkdir(exist_ok=True)
+            (VERIF / "evidence" / f"{self.pid}.json").write_text(json.dumps(ev, indent=1, default=str) + "\n")
         shutil.rmtree(self.workdir, ignore_errors=True)
         status = "VIOLATED" if self.violations else "held"
         print(f"[{self.pid}] {status}: tier={self.tier} seed={self.seed} wall={wall:.1f}s "
